@@ -47,9 +47,6 @@
 #ifndef VP_NUMBITS
 #define VP_NUMBITS 62   /* width of the file numbers in the directory and in the recovered counters */
 #endif
-#ifndef VP_STRICT_LOGOPEN
-#define VP_STRICT_LOGOPEN 0  /* 1: "a log that could not be opened is never skipped" is asserted */
-#endif
 
 /* every table written needs a record replayed since the previous one */
 #define VP_NEWTBL (VP_NAMES * VP_RECS + 1)
@@ -111,14 +108,14 @@ static int g_manifest1_removed = 0;
 
 /* logs replayed */
 static uint64_t g_replayed[VP_NAMES];
-static int g_replayed_ok[VP_NAMES];   /* ldb_recover_log_file returned OK for it (mark_file_number seen) */
+static int g_replayed_ok[VP_NAMES];   /* it was opened and ldb_recover_log_file returned OK for it (mark_file_number seen) */
 static int g_open_failed[VP_NAMES];   /* ldb_seqfile_create failed for it */
 static int g_nreplayed = 0;
 static int g_t_last_replay = 0;
 static uint64_t g_marked[VP_NAMES];
 static int g_nmarked = 0;
 static int g_t_last_mark = 0;
-static int g_logopen_skipped = 0;     /* a log could not be opened and the error was swallowed */
+static int g_logopen_rc = 0;          /* status of the (last) failed ldb_seqfile_create */
 
 /* records */
 static int rs_n = 0;
@@ -671,7 +668,7 @@ ldb_versions_mark_file_number(ldb_versions_t *v, uint64_t n) {
     if (i == g_nmarked)
       g_marked[i] = n;
     if (i == g_nreplayed - 1 && g_replayed[i] == n)
-      g_replayed_ok[i] = VP_STRICT_LOGOPEN ? !g_open_failed[i] : 1;
+      g_replayed_ok[i] = !g_open_failed[i];
   }
   g_nmarked++;
   if (v->next_file_number <= n)
@@ -917,8 +914,10 @@ ldb_seqfile_create(const char *name, ldb_rfile_t **file) {
     }
   }
   g_nreplayed++;
-  if (rc != LDB_OK)
+  if (rc != LDB_OK) {
+    g_logopen_rc = rc;
     return rc;
+  }
   the_rfile.open = 1;
   the_rfile.num = num;
   *file = &the_rfile;
